@@ -343,7 +343,104 @@ def nontrivial(case):
     return any(p.get("chunks") or p.get("fail") or p.get("cl") for p in case["progs"])
 
 
+LIVE_APP = r"""
+import base64, json, os, sys
+sys.path.insert(0, %r)
+from vlib.e2_worker import AppProgram
+HERE = os.path.dirname(os.path.abspath(__file__))
+
+def app(environ, start_response):
+    spec = json.loads(base64.b64decode(environ["HTTP_X_PROG"]))
+    return AppProgram(spec, HERE)(environ, start_response)
+"""
+
+
+class _LiveRouter:
+    # what judge() needs to know about the application side, reconstructed from the specs (programs without failure points)
+    def __init__(self, e2, specs, n):
+        self.apps = [e2.AppProgram(sp) for sp in specs]
+        for a in self.apps:
+            a.calls = [{}]
+            a.rec = {"failed_at": None, "close_calls": 1}
+        self.n = n
+
+
+def live_shard(sh):
+    # A sample of the same programs against a real server of one worker class over TCP: real accept loop, the worker
+    # class's own sockets (gevent / eventlet monkey-patched), real socket.sendfile / eventlet's patched sendfile
+    import base64
+    import socket
+    from vlib import e2_worker as e2
+    from vlib import e4_live as e4
+    run = Run(PROP, sh.get("tier", "quick"), sh["seed"], "exploration", RULE)
+    wc = sh["class"]
+    rng = rng_for(sh["seed"], "c02-live", wc)
+    settings = {"keepalive": 2, "graceful_timeout": 2, "timeout": 30}
+    if wc == "gthread":
+        settings["threads"] = 2
+    srv = e4.Server("c02", worker_class=wc, workers=1, settings=settings, app_source=LIVE_APP % common.VERIF,
+                    env={"VERIF_REPO": common.REPO})
+    try:
+        srv.start()
+        if not srv.wait_workers(1, 25) or not srv.wait_listening(5):
+            run.inconclusive_because("live server (%s) did not boot: %s" % (wc, srv.stderr()[-200:]))
+            return run
+        for k in range(sh["n"]):
+            if run.enough():
+                break
+            case = make_case(rng)
+            case["kind"] = "live-" + wc
+            for p in case["progs"]:
+                p.pop("fail", None)
+                p["has_close"] = False
+                # the program travels in a request header: long chunks become runs of one byte
+                p["chunks"] = [c if len(c) <= 120 else {"rep": [int(c[:2], 16), len(c) // 2]} for c in p.get("chunks", [])]
+            script = b""
+            for i, r in enumerate(case["reqs"]):
+                raw = render_request(r, i)
+                head, sep, rest = raw.partition(b"\r\n")
+                prog = base64.b64encode(json.dumps(case["progs"][i]).encode())
+                script += head + b"\r\nX-Prog: " + prog + b"\r\n" + rest
+            out = {"handler_exc": None, "hung": False, "received": b"", "eof": False}
+            try:
+                s = e4.connect(srv.addr, 5)
+                s.sendall(script)
+                s.shutdown(socket.SHUT_WR)
+                s.settimeout(8)
+                buf = b""
+                while True:
+                    d = s.recv(65536)
+                    if not d:
+                        out["eof"] = True
+                        break
+                    buf += d
+                out["received"] = buf
+                s.close()
+            except socket.timeout:
+                out["hung"] = True
+            except OSError as e:
+                out["received"] = buf if "buf" in dir() else b""
+                out["eof"] = True
+                out["client_err"] = repr(e)
+            router = _LiveRouter(e2, case["progs"], len(case["reqs"]))
+            verdicts = judge(case, out, router)
+            run.case(common.sha12(case), nontrivial=nontrivial(case))
+            run.count("live_connections")
+            run.count("live_class/" + wc)
+            for mech, summary in verdicts:
+                run.violation("live/" + mech, summary + " | live %s reqs=%s prog=%s" % (
+                    wc, [(r["method"], r["version"], r["conn"]) for r in case["reqs"]],
+                    [{k2: v2 for k2, v2 in p.items() if k2 != "chunks"} for p in case["progs"]][:2]), dict(case, live=wc))
+        if not srv.worker_pids():
+            run.violation("live/worker-died", "no worker left after the sample: %s" % srv.error_log()[-300:], {"live": wc})
+    finally:
+        srv.cleanup()
+    return run
+
+
 def shard(sh):
+    if sh.get("kind") == "live":
+        return live_shard(sh)
     from vlib import e2_worker as e2
     run = Run(PROP, sh.get("tier", "quick"), sh["seed"], "exploration", RULE)
     rng = rng_for(sh["seed"], "c02", sh["sub"])
@@ -391,11 +488,14 @@ def main(tier, seed):
                 "kind/sync", "kind/gthread", "kind/async")
     q = tier == "quick"
     shards = [{"n": 1500 if q else 20000, "sub": s, "seed": seed, "tier": tier} for s in range(32 if q else 64)]
+    shards += [{"kind": "live", "class": c, "n": 250 if q else 2000, "seed": seed, "tier": tier}
+               for c in ("sync", "gthread", "gevent", "eventlet")]
+    run.require("live_connections", "live_class/sync", "live_class/gthread", "live_class/gevent", "live_class/eventlet")
     run.assumptions = [
         "client = AF_UNIX socketpair end driven by the harness: sends all pipelined requests, half-closes, reads to EOF",
         "well-behaved applications only: no body for HEAD/204/304, no under-production against a declared length, str status 'NNN reason'",
         "HTTP/1.0 close-delimited responses cannot reveal truncation; not judged",
-        "live TCP servers (real accept loops, gevent/eventlet sockets) are covered by the live sub-tier where built",
+        "live sub-tier: 250 connections per worker class against real sync / gthread / gevent / eventlet servers over TCP (programs without failure points)",
     ]
     common.run_sharded(run, shards, timeout=900 if q else 7200)
     return run.finish()
